@@ -65,7 +65,6 @@ func StripANSI(s string) string { return ansiRe.ReplaceAllString(s, "") }
 var (
 	hdrRe = regexp.MustCompile(`^(error|warning|info|hint)(?:\[([A-Z0-9]+)\])?: (.*)$`)
 	locRe = regexp.MustCompile(`^\s*--> (.*):(\d+):(\d+)\s*$`)
-	frameRe = regexp.MustCompile(`^(compiler/[^\s(]+|main\.[^\s(]+)\(`)
 )
 
 func ParseDiags(out string) []Diag {
@@ -104,14 +103,34 @@ func CrashSite(out string) string {
 		return ""
 	}
 	lines := strings.Split(out, "\n")
+	first := ""
 	for _, ln := range lines {
 		ln = strings.TrimSpace(ln)
-		if m := frameRe.FindStringSubmatch(ln); m != nil {
-			f := m[1]
-			if strings.Contains(f, "compiler/internal/") || strings.HasPrefix(f, "main.") || strings.HasPrefix(f, "compiler/") {
-				return f
-			}
+		if !(strings.HasPrefix(ln, "compiler/") || strings.HasPrefix(ln, "main.")) {
+			continue
 		}
+		i := strings.LastIndex(ln, "(")
+		if i <= 0 {
+			continue
+		}
+		f := ln[:i]
+		if strings.ContainsAny(f, " \t") {
+			continue
+		}
+		f = strings.TrimPrefix(f, "compiler/internal/")
+		if first == "" {
+			first = f
+		}
+		// the first frame outside the diagnostics package identifies the faulty caller
+		if !strings.HasPrefix(f, "diagnostics.") {
+			if first != f {
+				return first + "<-" + f
+			}
+			return f
+		}
+	}
+	if first != "" {
+		return first
 	}
 	return "unknown-frame"
 }
